@@ -261,6 +261,7 @@ static void T(gssvx)(const char *id, int outfd)
     int_t *perm_c = malloc((n + 1) * sizeof(int_t)), *perm_r = malloc((n + 1) * sizeof(int_t)), info = 777;
     superlumt_options_t o; superlu_memusage_t mem; equed_t equed = (equed_t) geti("equed");
     const char *bs = gets_("B");
+    int ldb, ldx, padbad = 0, kk; ET *bst, *xst;
 
     T(build)(&A, &S, n, n, &val, &rowind, &colptr, &nnz);
     A.Stype = (Stype_t) stype;                      /* NR: the same three arrays are rowptr/colind/nzval of A */
@@ -274,7 +275,13 @@ static void T(gssvx)(const char *id, int outfd)
         bv[k] = (RT) re;
 #endif
     }
-    Bs.lda = n; Bs.nzval = bv; Xs.lda = n; Xs.nzval = xv;
+    /* B and X are stored with their own leading dimensions ldb, ldx >= n; padding rows hold a sentinel */
+    ldb = n + (int) geti("ldbx"); ldx = n + (int) geti("ldxx");
+    bst = malloc((ldb * nrhs + 1) * sizeof(ET)); xst = malloc((ldx * nrhs + 1) * sizeof(ET));
+    for (k = 0; k < ldb * nrhs * (CPLX ? 2 : 1); ++k) ((RT *) bst)[k] = (RT) 781.25;
+    for (k = 0; k < ldx * nrhs * (CPLX ? 2 : 1); ++k) ((RT *) xst)[k] = (RT) 781.25;
+    for (k = 0; k < nrhs; ++k) { memcpy(&bst[k * ldb], &bv[k * n], n * sizeof(ET)); memcpy(&xst[k * ldx], &xv[k * n], n * sizeof(ET)); }
+    Bs.lda = ldb; Bs.nzval = bst; Xs.lda = ldx; Xs.nzval = xst;
     B.Stype = SLU_DN; B.Dtype = DTYPE; B.Mtype = SLU_GE; B.nrow = n; B.ncol = nrhs; B.Store = &Bs;
     X = B; X.Store = &Xs;
     for (k = 0; k < n; ++k) { perm_c[k] = k; perm_r[k] = k; }
@@ -286,8 +293,8 @@ static void T(gssvx)(const char *id, int outfd)
     o.part_super_h = malloc((n + 1) * sizeof(int_t));
     if (o.fact == FACTORED) {                        /* factors of the matrix as given (it is taken as already scaled) */
         superlumt_options_t o2 = o; equed_t e2 = NOEQUIL; RT *R2 = malloc((n + 1) * sizeof(RT)), *C2 = malloc((n + 1) * sizeof(RT));
-        ET *b2 = malloc((n * nrhs + 1) * sizeof(ET)); DNformat B2s = Bs; SuperMatrix B2 = B;
-        memcpy(b2, bv, n * nrhs * sizeof(ET)); B2s.nzval = b2; B2.Store = &B2s;
+        ET *b2 = malloc((ldb * nrhs + 1) * sizeof(ET)); DNformat B2s = Bs; SuperMatrix B2 = B;
+        memcpy(b2, bst, ldb * nrhs * sizeof(ET)); B2s.nzval = b2; B2.Store = &B2s;
         o2.fact = DOFACT; o2.trans = NOTRANS;
         PFN(gssvx)(1, &o2, &A, perm_c, perm_r, &e2, R2, C2, &L, &U, &B2, &X, &rpg, &rcond, ferr, berr, &mem, &info);
         if (info != 0 && info != n + 1) { fflush(stdout); dup2(outfd, 1); printf("R %s status=prefactor-info:%ld\n", id, (long) info); fflush(stdout); return; }
@@ -296,7 +303,12 @@ static void T(gssvx)(const char *id, int outfd)
     PFN(gssvx)(1, &o, &A, perm_c, perm_r, &equed, R, C, &L, &U, &B, &X, &rpg, &rcond, ferr, berr, &mem, &info);
     fflush(stdout);
     dup2(outfd, 1);
-    printf("R %s info=%ld equed=%d", id, (long) info, (int) equed);
+    for (k = 0; k < nrhs; ++k) {
+        memcpy(&bv[k * n], &bst[k * ldb], n * sizeof(ET));
+        for (kk = n * (CPLX ? 2 : 1); kk < ldb * (CPLX ? 2 : 1); ++kk) if (((RT *) &bst[k * ldb])[kk] != (RT) 781.25) padbad++;
+        if (o.fact != FACTORED) for (kk = n * (CPLX ? 2 : 1); kk < ldx * (CPLX ? 2 : 1); ++kk) if (((RT *) &xst[k * ldx])[kk] != (RT) 781.25) padbad++;
+    }
+    printf("R %s info=%ld equed=%d pad=%d", id, (long) info, (int) equed, padbad);
     T(print_vals)("a", val, nnz); T(print_reals)("r", R, n); T(print_reals)("c", C, n); T(print_vals)("b", bv, n * nrhs);
     printf(" xerbla=%d status=ok\n", xerbla_count);
     fflush(stdout);
